@@ -86,6 +86,8 @@ func (c *cssCase) assembleCut(cutAt int) string {
 		atoms[i] = a + "," + f
 	case "slash":
 		atoms[i] = a + "/" + f
+	case "newline":
+		atoms[i] = a + "\n" + f
 	}
 	return strings.Join(atoms, " ")
 }
